@@ -153,6 +153,39 @@ def run_random_case(ctx, kind_, idx):
         info["x"] = x
     try:
         with fp_watch(ctx):
+            if mode == "function" and kind_ != "huge" and rng.integers(0, 12) == 0:
+                # 64-bit integer abscissae beyond 2**53 (epoch nanoseconds) sampled more finely than float64 resolves
+                # there (256 ns), cut with float or integer bounds: comparing in float64 merges neighbouring samples;
+                # the oracle compares Python integers with the bounds exactly
+                m_ = max(len(x), 6)
+                step_ = int(rng.choice([100, 40, 250, 1]))
+                base_ = 1_700_000_000_000_000_000 + int(rng.integers(0, 10 ** 6))
+                xi = [base_ + step_ * k for k in range(m_)]
+                yi = np.resize(y, m_)
+                i0_, i1_ = sorted(int(v) for v in rng.choice(m_, size=2, replace=False))
+                tb = int(rng.integers(0, 3))
+                if tb == 0:
+                    l, r = float(xi[i0_]), float(xi[i1_])            # floats: the nearest doubles of two samples
+                elif tb == 1:
+                    l, r = xi[i0_] + int(rng.integers(-step_, step_ + 1)), xi[i1_] + int(rng.integers(-step_, step_ + 1))
+                else:
+                    l, r = np.int64(xi[i0_]), float(xi[i1_] + 3 * step_)
+                if not l < r:
+                    ctx.discard("bounds_inadmissible_for_one_of_the_two_series")
+                    return
+                dt_ = np.int64 if rng.integers(0, 2) else np.uint64
+                xin = np.array(xi, dtype=dt_)
+                info.update({"x_storage": np.dtype(dt_).name + " beyond 2**53", "step": step_, "left": l, "right": r, "m": m_})
+                gx, gy = truncate(xin, yi.copy(), l, r)
+                ctx.judged()
+                ctx.monitor("c11:truncate")
+                i, j, _a, _b = D.truncate_bounds(xi, l, r, False, False)
+                if not ([int(v) for v in gx] == xi[i:j + 1] and eq(gy, yi[i:j + 1])):
+                    ctx.violation("truncate_range", cid, {"got_x": [int(v) for v in gx], "want_x": xi[i:j + 1], "case": info})
+                    return
+                if j - i + 1 < m_:
+                    ctx.nontriv("rnd", idx)
+                return
             if mode == "function":
                 narrow = None
                 if rng.integers(0, 10) == 0 and kind_ != "huge":
